@@ -80,6 +80,11 @@ type c15Client struct {
 	lastByte time.Time
 	eofAt    time.Time
 	drainCut bool // the final drain hit its total time cap while bytes were still arriving
+	// emptyWait: total length of the read deadlines that expired, one after the other, with the socket
+	// empty since the last byte arrived (reset by every byte). Unlike the wall-clock distance between
+	// two reads it cannot be inflated by this process being descheduled on a loaded machine.
+	emptyWait time.Duration
+	peerUnsent int // bytes lal's kernel still held unsent when the drain ended (zero-window persist back-off)
 
 	joinedFrame  int64
 	stalledFrame int64
@@ -103,6 +108,44 @@ func c15Setup(c *fw.Ctx) {
 // loopback the MSS is 64 KiB, a window below it triggers the sender's silly-window avoidance
 // and the persist timer, and a resumed reader then trickles at ≈10 KB/s — a kernel artefact
 // that looked like a server that stopped sending.)
+// tcpPeerSendQueue returns the number of bytes queued for sending in the kernel on the PEER's side of
+// a loopback connection (the socket whose local address is conn's remote address), from /proc/net/tcp.
+func tcpPeerSendQueue(conn net.Conn) (int, bool) {
+	la, ok1 := conn.LocalAddr().(*net.TCPAddr)
+	ra, ok2 := conn.RemoteAddr().(*net.TCPAddr)
+	if !ok1 || !ok2 {
+		return 0, false
+	}
+	hexAddr := func(a *net.TCPAddr) string {
+		ip := a.IP.To4()
+		if ip == nil {
+			return ""
+		}
+		return fmt.Sprintf("%02X%02X%02X%02X:%04X", ip[3], ip[2], ip[1], ip[0], a.Port)
+	}
+	wantLocal, wantRem := hexAddr(ra), hexAddr(la)
+	if wantLocal == "" || wantRem == "" {
+		return 0, false
+	}
+	b, err := os.ReadFile("/proc/net/tcp")
+	if err != nil {
+		return 0, false
+	}
+	for _, line := range strings.Split(string(b), "\n") {
+		f := strings.Fields(line)
+		if len(f) < 5 || f[1] != wantLocal || f[2] != wantRem {
+			continue
+		}
+		q := strings.SplitN(f[4], ":", 2)
+		n, err := strconv.ParseInt(q[0], 16, 64)
+		if err != nil {
+			return 0, false
+		}
+		return int(n), true
+	}
+	return 0, false
+}
+
 func c15DialSmall(addr string) (net.Conn, error) {
 	var conn net.Conn
 	var err error
@@ -366,11 +409,19 @@ func (cl *c15Client) readSome(n int, d time.Duration) (got int, open bool) {
 		cl.add(buf[:k])
 		cl.mu.Lock()
 		cl.lastByte = time.Now()
+		cl.emptyWait = 0
 		cl.mu.Unlock()
 	}
 	if err != nil {
 		var ne net.Error
 		if errors.As(err, &ne) && ne.Timeout() {
+			if k == 0 {
+				// the read was pending for the whole deadline and the socket stayed empty: silence that
+				// is lal's, whatever the scheduler did to this process in between
+				cl.mu.Lock()
+				cl.emptyWait += d
+				cl.mu.Unlock()
+			}
 			return k, true
 		}
 		cl.mu.Lock()
@@ -432,18 +483,34 @@ func (cl *c15Client) run(frame *int64) {
 	// drain: the publishers have stopped, so lal's sweep ends every idle session; read until
 	// EOF (or 5 s without a byte / 20 s in total — then the connection counts as left open)
 	t0 := time.Now()
-	idle := time.Now()
-	for open && time.Since(idle) < 5*time.Second && time.Since(t0) < 20*time.Second {
-		var n int
-		n, open = cl.readSome(65536, 500*time.Millisecond)
-		if n > 0 {
-			idle = time.Now()
-		}
+	silent := func() time.Duration {
+		cl.mu.Lock()
+		defer cl.mu.Unlock()
+		return cl.emptyWait
 	}
-	if open && time.Since(idle) < 5*time.Second {
+	cl.mu.Lock()
+	cl.emptyWait = 0
+	cl.mu.Unlock()
+	for open && silent() < 5*time.Second && time.Since(t0) < 20*time.Second {
+		_, open = cl.readSome(65536, 500*time.Millisecond)
+	}
+	if open && silent() < 5*time.Second {
 		cl.mu.Lock()
 		cl.drainCut = true
 		cl.mu.Unlock()
+	}
+	if open {
+		// silence on a connection that was stalled for long is not proof that lal has nothing more to
+		// send: after a zero window the sending kernel waits for its persist timer, which backs off
+		// exponentially (seconds to minutes) when the window update is suppressed by silly-window
+		// avoidance (loopback MSS 64 KiB against a receive buffer that never grew). Bytes lal has
+		// written and its kernel has not sent yet are not lal's doing: ask the kernel.
+		if q, ok := tcpPeerSendQueue(cl.conn); ok && q > 0 {
+			cl.mu.Lock()
+			cl.drainCut = true
+			cl.peerUnsent = q
+			cl.mu.Unlock()
+		}
 	}
 	if open && os.Getenv("VERIF_C15_SS") != "" {
 		out, _ := exec.Command("ss", "-tnoi", "sport", "=", ":"+c15Port(cl.local), "or", "dport", "=", ":"+c15Port(cl.local)).CombinedOutput()
@@ -1061,7 +1128,7 @@ func c15CheckStream(c *fw.Ctx, cl *c15Client, pubs []*c15Pub, plans interface{})
 	eof := cl.eof
 	// a close that follows ≥700 ms of silence on a drained connection is the idle sweep, not a
 	// write cut short: the stream must then end on a unit boundary
-	idleClose := cl.eof && !cl.lastByte.IsZero() && cl.eofAt.Sub(cl.lastByte) > 700*time.Millisecond
+	idleClose := cl.eof && !cl.lastByte.IsZero() && cl.emptyWait >= 700*time.Millisecond
 	drainCut := cl.drainCut
 	cl.mu.Unlock()
 	c.Count("stalled_stream_bytes", len(stream))
@@ -1072,10 +1139,17 @@ func c15CheckStream(c *fw.Ctx, cl *c15Client, pubs []*c15Pub, plans interface{})
 	partial := func(n int) {
 		if n > 0 && drainCut {
 			c.Count("drain_cut_short", 1)
+			if cl.peerUnsent > 0 {
+				c.Count("drain_ended_with_unsent_bytes_in_lals_kernel", 1)
+			}
 			return
 		}
 		if n > 0 && (!eof || idleClose) {
-			bad("partial-unit", "%d trailing bytes do not form a whole unit although the connection was idle (drained, no write in progress)", n)
+			tail := stream
+			if len(tail) > n+24 {
+				tail = tail[len(tail)-n-24:]
+			}
+			bad("partial-unit", "%d trailing bytes do not form a whole unit although the connection was idle (drained, no write in progress; socket empty for %v before the end); the 24 bytes before them and their first bytes: % x", n, cl.emptyWait, tail[:min(len(tail), 64)])
 		}
 	}
 	httpBody := func() ([]byte, bool) {
